@@ -524,7 +524,7 @@ Lemma inv_step s e : inv s -> inv (step_state s e).
 Proof.
   intros (H & I & C). unfold step_state.
   destruct (s_closed s) eqn:Cl; [split; [exact H|split; [exact I|intros _; apply C; reflexivity]]|].
-  destruct e as [j pka|j| | | | | | |pkts|pkts| |ds|j v|j|j kin kout].
+  destruct e as [j pka|j| | | | | | |pkts|pkts| |ds|j v|j|j kin kout|j].
   - (* EAddPeer *)
     destruct (find_peer j (s_peers s)) as [q|] eqn:F.
     + destruct (s_up s) eqn:U.
@@ -648,6 +648,7 @@ Proof.
       generalize (resting (s_peers s)). intros r r' Rp. vlia.
     + apply idle_ok_put; [exact I|]. cbn [set_keys q_run q_staged]. apply I. eapply find_peer_in; exact F.
   - (* EStraggle *) split; [exact H|split; [exact I|rewrite Cl; discriminate]].
+  - (* ELateSend *) split; [exact H|split; [exact I|rewrite Cl; discriminate]].
 Qed.
 
 Lemma reached_inv c evs : inv (reached c evs).
@@ -822,7 +823,7 @@ Qed.
 Lemma dinv_step s e : dinv s -> dinv (step_state s e).
 Proof.
   intros D. unfold dinv, step_state. destruct (s_closed s) eqn:Cl; [exact D|].
-  destruct e as [j pka|j| | | | | | |pkts|pkts| |ds|j v|j|j kin kout].
+  destruct e as [j pka|j| | | | | | |pkts|pkts| |ds|j v|j|j kin kout|j].
   - destruct (find_peer j (s_peers s)) as [q|] eqn:F.
     + destruct (s_up s) eqn:U.
       * match goal with |- context [if ?c then send_keepalive true ?q0 ?a else _] =>
@@ -852,6 +853,7 @@ Proof.
   - destruct (find_peer j (s_peers s)) as [q|] eqn:F; [|exact D].
     cbn [with_pa s_up s_peers fst]. intros U. apply allstopped_put; [apply D; exact U|]. cbn [set_keys q_run].
     apply (D U). eapply find_peer_in; exact F.
+  - exact D.
   - exact D.
 Qed.
 
@@ -1111,4 +1113,37 @@ Proof.
   - intros _ q [].
   - apply xinv_init.
   - unfold agree, xinit, sp_init; cbn. auto.
+Qed.
+
+(* a send call that reaches a peer only after Peer.Stop has returned (ELateSend: SendKeepalive / SendStagedPackets made
+   by a caller that had looked the peer up while it was running) changes nothing: no pool count moves, nothing is staged,
+   nothing is parked in an autodraining queue — whatever happened before, and whether the peer is still configured,
+   removed, or the device closed *)
+Lemma late_send_state x j : xstep_state x (ELateSend j) = x.
+Proof.
+  destruct x as [s l g a]. unfold xstep_state. cbn [x_s x_lost x_garbage x_acc].
+  assert (E : step_state s (ELateSend j) = s) by (unfold step_state; destruct (s_closed s); reflexivity).
+  rewrite E. destruct (s_closed s); reflexivity.
+Qed.
+
+Theorem late_send_neutral : forall c evs j,
+  let x := xreached c evs in
+  let x1 := xreached c (evs ++ [ELateSend j]) in
+  xoutstanding x1 = xoutstanding x /\ resting (s_peers (x_s x1)) = resting (s_peers (x_s x)) /\
+  lsum (x_lost x1) = lsum (x_lost x) /\ x_garbage x1 = x_garbage x.
+Proof.
+  intros c evs j. cbv zeta. rewrite final_xstep_app. cbn [final run fst xstep].
+  unfold final, xstep; cbn [run fst snd]. rewrite late_send_state. auto.
+Qed.
+
+(* consequently the life cycle "Up, Down, late send call, removal and / or Close, collection" ends at zero like any
+   other: instance of closed_gc_zero, stated for the record *)
+Theorem late_send_then_close_zero : forall c evs j evs1 evs2,
+  xoutstanding (xreached c (evs ++ ELateSend j :: evs1 ++ EClose :: evs2 ++ [EGC])) = vzero.
+Proof.
+  intros c evs j evs1 evs2.
+  replace (evs ++ ELateSend j :: evs1 ++ EClose :: evs2 ++ [EGC])
+    with ((evs ++ ELateSend j :: evs1) ++ EClose :: evs2 ++ EGC :: []).
+  - apply closed_gc_zero.
+  - rewrite <- app_assoc. reflexivity.
 Qed.
